@@ -302,7 +302,13 @@ fn model_phase(args: &Args) -> Report {
          (free choices: every order of the peer's listen/handshake/connect/write k/read k/close relative to the application's calls is generated), and the answer is \
          either the default (most progress the state allows; EAGAIN when full/empty is forced) or a deviation (any smaller count >= 1, ppoll EINTR, ppoll time-out although \
          the peer could still act, unix connect EAGAIN once) with at most {} deviations per execution. Every choice list is generated exactly once (prefix + defaults + branch \
-         on later points); an execution is non-trivial by construction (it runs the operation under test to completion).",
+         on later points); an execution is non-trivial by construction (it runs the operation under test to completion). \
+         The model tracks O_NONBLOCK per descriptor (socket()/accept4() flags, fcntl F_SETFL): a call on a BLOCKING-mode descriptor that cannot make progress does not answer EAGAIN but \
+         sleeps in the kernel while the peer performs its remaining actions; if nothing is left that wakes it the execution ends there (violation blocks-in-kernel when the operation's oracle \
+         says it must return — timed and try variants, or a peer that still acts —, class blocked-awaiting-peer(ok) for an unlimited wait on a silent peer). Chain scenarios: a stream obtained \
+         through each of accept/try_accept/accept_with_timeout/connect/try_connect/connect_with_timeout/connect_blocking (unix and tcp) is used through read_with_timeout (every time-out; tcp), \
+         plain read and an over-full write_all while the peer is connected but silent; after every bind/accept/connect variant the descriptor's mode is asserted (returns-blocking-descriptor; \
+         for UnixStream, which has no timed or try operation, a blocking descriptor is only recorded as an outcome class).",
         g.caps, g.max_len, g.timeouts, budget
     );
     r.bound("deviation_budget", budget);
